@@ -105,3 +105,12 @@ MUTANTS += [
  {"id": "connections-in-set-order", "props": ["C13"], "edits": [("pymtl3/passes/rtlir/structural/StructuralRTLIRGenL1Pass.py", "    ordered_conns = [ *m.get_connect_order() ]", "    ordered_conns = list( set( m.get_connect_order() ) )")]},
  {"id": "name-hash-from-python-hash", "props": ["C13"], "edits": [("pymtl3/passes/backends/verilog/util/utility.py", "  param_name = param_hash.hexdigest()", "  param_name = format( hash( full_name ) & 0xffffffffffffffff, '016x' )")]},
 ]
+
+MUTANTS += [
+ {"id": "revert-F-W1", "props": ["C10"], "edits": [("pymtl3/passes/rtlir/rtype/RTLIRDataType.py", "    return value.bit_length()", "    return ceil(log2(value+1))")]},
+ {"id": "revert-F-W3", "props": ["C10"], "edits": [("pymtl3/passes/rtlir/behavioral/BehavioralRTLIRTypeCheckL1Pass.py", "       rhs_type.get_length() > lhs_type.get_length():\n      raise PyMTLTypeError( s.blk, node.ast,\n        f'The LHS of the assignment", "       False:\n      raise PyMTLTypeError( s.blk, node.ast,\n        f'The LHS of the assignment")]},
+ {"id": "tc-slice-width-plus-one", "props": ["C10"], "edits": [("pymtl3/passes/rtlir/behavioral/BehavioralRTLIRTypeCheckL1Pass.py", "      node.Type = rt.NetWire( rdt.Vector( int( upper_val - lower_val ) ) )", "      node.Type = rt.NetWire( rdt.Vector( int( upper_val - lower_val ) + ( 1 if lower_val == 3 else 0 ) ) )")]},
+ {"id": "tc-binop-result-min-width", "props": ["C10"], "edits": [("pymtl3/passes/rtlir/behavioral/BehavioralRTLIRTypeCheckL2Pass.py", "      res_nbits = max( l_nbits, r_nbits )", "      res_nbits = min( l_nbits, r_nbits )")]},
+ {"id": "tc-compare-accepts-explicit-mismatch", "props": ["C10"], "edits": [("pymtl3/passes/rtlir/behavioral/BehavioralRTLIRTypeCheckL2Pass.py", "    if l_explicit and r_explicit:\n      if l_type != r_type:", "    if l_explicit and r_explicit:\n      if l_type != r_type and l_nbits > r_nbits:")]},
+ {"id": "tc-binop-accepts-explicit-mismatch", "props": ["C10"], "edits": [("pymtl3/passes/rtlir/behavioral/BehavioralRTLIRTypeCheckL2Pass.py", "        if not isinstance( op, s.BinOp_left_nbits ) and l_type != r_type:", "        if not isinstance( op, s.BinOp_left_nbits ) and l_type != r_type and l_nbits < r_nbits:")]},
+]
